@@ -263,12 +263,12 @@ Proof.
     - destruct Wd as [Wt Dt]. rewrite (proj1 (all_wf_types t Wt) fuel R Dt (pstop_stop R HR)). reflexivity.
     - destruct R as [|[s|[]|l|dd ts] r]; cbn in HR; try contradiction; reflexivity. }
   destruct bs as [|b r].
-  - unfold lex_bounds. cbn [app]. rewrite (nt_name fuel n (D ++ R) Hk Hf (proj1 SD)). cbn [expect bind].
+  - unfold lex_bounds. cbn [app]. rewrite (nt_name fuel n (D ++ R) Hk Hf (proj1 SD)). cbn [expect bind]. rewrite (pr_name n Hk).
     replace (match D ++ R with TP PColon :: s3 => bounds_loop fuel (S (List.length s3)) [] s3 | _ => Ok [] (D ++ R) end) with (@Ok (list ty) [] (D ++ R)).
     2:{ subst D. destruct d; cbn [app]; [reflexivity|]. destruct R as [|[s|[]|l|dd ts] r]; cbn in HR; try contradiction; reflexivity. }
     cbn [bind]. apply Tail.
   - unfold lex_bounds. rewrite <- app_assoc. cbn [app].
-    rewrite (nt_name fuel n _ Hk Hf (stop_colon_bounds (b :: r) (D ++ R) ltac:(discriminate))). cbn [expect bind].
+    rewrite (nt_name fuel n _ Hk Hf (stop_colon_bounds (b :: r) (D ++ R) ltac:(discriminate))). cbn [expect bind]. rewrite (pr_name n Hk).
     rewrite bounds_loop_ok; [|discriminate| |exact Wb|exact (proj1 SD)|exact (proj2 SD)].
     2:{ rewrite app_length. pose proof (length_sep_plus_ge lex (b :: r) lex_nonempty). lia. }
     cbn [bind app]. apply Tail.
